@@ -31,6 +31,22 @@ func main() {
 		runSearch(a)
 		return
 	}
+	if a["mode"] == "history" {
+		// history / concurrency probe alone (the thorough tier runs it under the race detector)
+		r := hx.NewRng(hx.SeedFromEnv() ^ 0xc0c0)
+		st := &stats{kinds: map[string]int{}, ends: map[string]int{}, errs: map[string]int{}, depth: map[int]int{}}
+		for i := 0; i < hx.ArgInt(a, "n", 3); i++ {
+			if key, desc := historyProbe(r.Fork(), st); key != "" {
+				emitViolation(violation{Key: key, Desc: desc, Replay: map[string]interface{}{"cmd": "harness/bin/c12 mode=history"}})
+			}
+		}
+		fmt.Println("STATS {\"history_rounds\":" + fmt.Sprint(hx.ArgInt(a, "n", 3)) + "}")
+		return
+	}
+	if a["mode"] == "rootdbg" {
+		rootDbg(a["file"])
+		return
+	}
 	if a["mode"] == "dbg" {
 		runDbg()
 		return
@@ -68,6 +84,9 @@ func main() {
 }
 
 func emitBlock(h *harness, out *hx.Out, blk *block, st *stats) {
+	if fl := blk.forkLine(); fl != "" {
+		out.Emit(fl, "ok")
+	}
 	line := blk.resetLine()
 	out.Do(line, func() string { return h.reset(blk) })
 	if blk.real {
